@@ -39,10 +39,16 @@ type settlement struct {
 	coins sdk.Coins
 }
 
-// settlementsOf extracts (validator, coins) pairs that were withdrawn for the module account and
-// forwarded to the rewards pool, in order; rewards withdrawn but not forwarded are returned as residue.
+// settlementsOf extracts (validator, coins) pairs that were withdrawn for the module account, in order: forwarded
+// to the rewards pool (settled), sent back to the fee collector because nobody can be credited (returned), or
+// neither (residue: they stay in the custody account).
 func settlementsOf(r *Runner, events []abci.Event) (settled []settlement, residue []settlement) {
-	mod, pool := r.W.ModuleAddr.String(), r.W.RewardsAddr.String()
+	settled, residue, _ = settlementsOf3(r, events)
+	return
+}
+
+func settlementsOf3(r *Runner, events []abci.Event) (settled, residue, returned []settlement) {
+	mod, pool, fee := r.W.ModuleAddr.String(), r.W.RewardsAddr.String(), r.W.FeeCollector.String()
 	var pending *settlement
 	for _, e := range events {
 		switch e.Type {
@@ -59,12 +65,16 @@ func settlementsOf(r *Runner, events []abci.Event) (settled []settlement, residu
 			}
 			pending = &settlement{val: attr(e, "validator"), coins: c}
 		case "transfer":
-			if pending == nil || attr(e, "sender") != mod || attr(e, "recipient") != pool {
+			if pending == nil || attr(e, "sender") != mod || (attr(e, "recipient") != pool && attr(e, "recipient") != fee) {
 				continue
 			}
 			c, err := sdk.ParseCoinsNormalized(attr(e, "amount"))
 			if err == nil && c.Equal(pending.coins) {
-				settled = append(settled, *pending)
+				if attr(e, "recipient") == pool {
+					settled = append(settled, *pending)
+				} else {
+					returned = append(returned, *pending)
+				}
 				pending = nil
 			}
 		}
@@ -73,6 +83,16 @@ func settlementsOf(r *Runner, events []abci.Event) (settled []settlement, residu
 		residue = append(residue, *pending)
 	}
 	return
+}
+
+// returnedRewards sums, per denom, the rewards that went straight back to the fee collector in this step.
+func returnedRewards(r *Runner, events []abci.Event) sdk.Coins {
+	_, _, ret := settlementsOf3(r, events)
+	out := sdk.NewCoins()
+	for _, s := range ret {
+		out = out.Add(s.coins...)
+	}
+	return out
 }
 
 func (m *monC13) credit(p PosKey, denom string, amt, res *big.Rat) {
